@@ -1,0 +1,16 @@
+//go:build verif
+
+package feeder
+
+import (
+	"github.com/cometbft/cometbft/libs/log"
+
+	"github.com/settlus/chain/tools/interop-node/subscriber"
+)
+
+// VerifGatherNftOwnerData exposes the feeder's ownership-entry formatter to the verification harness.
+// It is compiled only with the "verif" build tag.
+func VerifGatherNftOwnerData(subs map[string]subscriber.Subscriber, nftIds []string, timestamp uint64) ([]string, error) {
+	f := &Feeder{logger: log.NewNopLogger(), subscribers: subs}
+	return f.gatherNftOwnerDataString(nftIds, timestamp)
+}
